@@ -97,6 +97,9 @@ type KeepCase struct {
 	Every  int    `json:"every"`  // the getline runs on records whose NR % Every == 0
 	Touch  bool   `json:"touch"`  // the fields are touched ($1) before the getline, so they are already split
 	Modify bool   `json:"modify"` // a field is assigned afterwards and $0 rebuilt: must start from the record's own fields
+	// NoBefore: nothing looks at the record before the getline (no snapshot, no field access): what the record holds
+	// afterwards is compared with a control run of the same program without the getline (file forms only)
+	NoBefore bool `json:"no_before,omitempty"`
 }
 
 func genKeep(t *rapid.T) KeepCase {
@@ -117,7 +120,7 @@ func genKeep(t *rapid.T) KeepCase {
 	}
 	return KeepCase{Input: h.Str(mk("m")), Side: h.Str(mk("s")), Mode: rapid.SampledFrom([]string{"", "csv", "csv", "tsv", "csv header"}).Draw(t, "mode"),
 		Form: rapid.SampledFrom([]string{"getline-var", "getline-var", "getline-var-file", "getline-arr", "getline-arr-file"}).Draw(t, "form"),
-		Every: rapid.IntRange(1, 2).Draw(t, "every"), Touch: rapid.Bool().Draw(t, "touch"), Modify: rapid.Bool().Draw(t, "modify")}
+		Every: rapid.IntRange(1, 2).Draw(t, "every"), Touch: rapid.Bool().Draw(t, "touch"), Modify: rapid.Bool().Draw(t, "modify"), NoBefore: rapid.IntRange(0, 2).Draw(t, "nobefore") == 0}
 }
 
 func runKeep(x *h.Ctx, c KeepCase) string {
@@ -146,6 +149,44 @@ func runKeep(x *h.Ctx, c KeepCase) string {
 	modify := ""
 	if c.Modify {
 		modify = "; if (NF >= 2) { nf0 = NF; f2 = $2; $1 = \"Z\"; if (NF != nf0 || $2 != f2) print \"REBUILD-WRONG\", NR, NF, nf0, $2, f2 }"
+	}
+	if c.NoBefore && strings.HasSuffix(c.Form, "-file") {
+		mk := func(withGetline bool) string {
+			g := gl
+			if !withGetline {
+				g = "r = 1"
+			}
+			return fmt.Sprintf("BEGIN { FS = \",\" }\nNR %% %d == 0 { %s; %s; print \"AFTER\", NR, s2 }\nEND { print \"done\", NR }\n", c.Every, g, snap("s2"))
+		}
+		var outs [2]string
+		for i, with := range []bool{true, false} {
+			prog, err := parser.ParseProgram([]byte(mk(with)), nil)
+			if err != nil {
+				return "harness program: " + err.Error()
+			}
+			var out strings.Builder
+			cfg := &interp.Config{Stdin: strings.NewReader(string(c.Input)), Output: &out, Error: &out, Argv0: "goawk", Environ: []string{}, Vars: []string{"F", side}, NoExec: true, NoFileWrites: true}
+			switch c.Mode {
+			case "csv":
+				cfg.InputMode = interp.CSVMode
+			case "tsv":
+				cfg.InputMode = interp.TSVMode
+			case "csv header":
+				cfg.InputMode = interp.CSVMode
+				cfg.CSVInput.Header = true
+			}
+			if _, err := interp.ExecProgram(prog, cfg); err != nil {
+				return fmt.Sprintf("run failed: %v\nprogram: %s", err, mk(with))
+			}
+			outs[i] = out.String()
+		}
+		if outs[0] != outs[1] {
+			return fmt.Sprintf("%s (nothing had looked at the record before) changed what the record holds afterwards (input mode %q)\nprogram: %s\ninput: %q\nside file: %q\nwith the getline:\n%s\nwithout it:\n%s", c.Form, c.Mode, mk(true), string(c.Input), string(c.Side), h.Trunc(outs[0], 800), h.Trunc(outs[1], 800))
+		}
+		x.Class("mode-" + c.Mode)
+		x.Class(c.Form + "-untouched-record")
+		x.Nontrivial("")
+		return ""
 	}
 	src := fmt.Sprintf("BEGIN { FS = \",\" }\nNR %% %d == 0 { %s%s; %s; %s; if (s1 != s2) print \"RECORD-CHANGED\", NR, \"before:\", s1, \"after:\", s2; if (r > 0 && (index(\"%s\", \"file\") ? s1nr != s2nr : 0)) print \"NR-CHANGED\", s1nr, s2nr%s }\nEND { print \"done\", NR }\n",
 		c.Every, touch, snap("s1"), gl, snap("s2"), c.Form, modify)
